@@ -59,7 +59,13 @@ type ScriptList struct {
 
 func (sl *ScriptList) parseScripts(src []byte) error {
 	sl.Scripts = make([]Script, len(sl.Records))
+	// several records may point to the same table : it is parsed (and allocated) once
+	parsed := make(map[uint16]Script) // by offset
 	for i, rec := range sl.Records {
+		if item, ok := parsed[rec.Offset]; ok {
+			sl.Scripts[i] = item
+			continue
+		}
 		var err error
 		if L := len(src); L < int(rec.Offset) {
 			return fmt.Errorf("EOF: expected length: %d, got %d", rec.Offset, L)
@@ -68,6 +74,7 @@ func (sl *ScriptList) parseScripts(src []byte) error {
 		if err != nil {
 			return err
 		}
+		parsed[rec.Offset] = sl.Scripts[i]
 	}
 	return nil
 }
@@ -80,7 +87,13 @@ type Script struct {
 
 func (sc *Script) parseLangSys(src []byte) error {
 	sc.LangSys = make([]LangSys, len(sc.LangSysRecords))
+	// several records may point to the same table : it is parsed (and allocated) once
+	parsed := make(map[uint16]LangSys) // by offset
 	for i, rec := range sc.LangSysRecords {
+		if item, ok := parsed[rec.Offset]; ok {
+			sc.LangSys[i] = item
+			continue
+		}
 		var err error
 		if L := len(src); L < int(rec.Offset) {
 			return fmt.Errorf("EOF: expected length: %d, got %d", rec.Offset, L)
@@ -89,6 +102,7 @@ func (sc *Script) parseLangSys(src []byte) error {
 		if err != nil {
 			return err
 		}
+		parsed[rec.Offset] = sc.LangSys[i]
 	}
 	return nil
 }
@@ -106,7 +120,13 @@ type FeatureList struct {
 
 func (fl *FeatureList) parseFeatures(src []byte) error {
 	fl.Features = make([]Feature, len(fl.Records))
+	// several records may point to the same table : it is parsed (and allocated) once
+	parsed := make(map[uint16]Feature) // by offset
 	for i, rec := range fl.Records {
+		if item, ok := parsed[rec.Offset]; ok {
+			fl.Features[i] = item
+			continue
+		}
 		var err error
 		if L := len(src); L < int(rec.Offset) {
 			return fmt.Errorf("EOF: expected length: %d, got %d", rec.Offset, L)
@@ -115,6 +135,7 @@ func (fl *FeatureList) parseFeatures(src []byte) error {
 		if err != nil {
 			return err
 		}
+		parsed[rec.Offset] = fl.Features[i]
 	}
 	return nil
 }
